@@ -159,13 +159,25 @@ func read(r *parse.BinaryReader, v val) (uint64, []byte) {
 // ---------- backends and contract-legal adversaries
 
 type plainReader struct { // no Seek, no ReadAt, no Bytes
-	data    []byte
-	off     int
-	chunk   int
-	eofWith bool
+	data     []byte
+	off      int
+	chunk    int
+	eofWith  bool
+	scribble bool // uses the rest of p as scratch space (allowed by the io.Reader contract)
 }
 
-func (r *plainReader) Read(p []byte) (int, error) {
+func (r *plainReader) Read(p []byte) (n int, err error) {
+	if r.scribble {
+		defer func() {
+			for i := n; i < len(p); i++ {
+				p[i] = 0xAA
+			}
+		}()
+	}
+	return r.read(p)
+}
+
+func (r *plainReader) read(p []byte) (int, error) {
 	if r.off >= len(r.data) {
 		return 0, io.EOF
 	}
@@ -249,6 +261,7 @@ var tmpCount int
 func open(t *rapid.T, backend string, data []byte) opened {
 	chunk := rapid.SampledFrom([]int{0, 1, 2, 7}).Draw(t, "chunk")
 	eofWith := rapid.Bool().Draw(t, "eofWith")
+	scribble := rapid.Bool().Draw(t, "scribble")
 	mk := func(r io.Reader, n int64) opened {
 		br, err := parse.NewBinaryReaderReader(r, n)
 		if err != nil {
@@ -270,18 +283,18 @@ func open(t *rapid.T, backend string, data []byte) opened {
 	case "reader-bytes":
 		return mk(&bytesReader{append([]byte(nil), data...)}, rapid.SampledFrom([]int64{-1, 0, int64(len(data))}).Draw(t, "n"))
 	case "seeker-auto":
-		return mk(&seekReader{plainReader{data: data, chunk: chunk, eofWith: eofWith}}, -1)
+		return mk(&seekReader{plainReader{data: data, chunk: chunk, eofWith: eofWith, scribble: scribble}}, -1)
 	case "seeker-n":
-		return mk(&seekReader{plainReader{data: data, chunk: chunk, eofWith: eofWith}}, int64(len(data)))
+		return mk(&seekReader{plainReader{data: data, chunk: chunk, eofWith: eofWith, scribble: scribble}}, int64(len(data)))
 	case "readerat":
 		if len(data) == 0 {
 			return mk(&readerAt{data: data, eofExact: eofWith}, -1) // n must be > 0 for the ReaderAt backend; -1 reads everything
 		}
 		return mk(&readerAt{data: data, eofExact: eofWith}, int64(len(data)))
 	case "readall":
-		return mk(&plainReader{data: data, chunk: chunk, eofWith: eofWith}, -1)
+		return mk(&plainReader{data: data, chunk: chunk, eofWith: eofWith, scribble: scribble}, -1)
 	case "sequential":
-		o := mk(&plainReader{data: data, chunk: chunk, eofWith: eofWith}, int64(len(data)))
+		o := mk(&plainReader{data: data, chunk: chunk, eofWith: eofWith, scribble: scribble}, int64(len(data)))
 		o.sequential = true
 		return o
 	case "osfile":
